@@ -118,11 +118,18 @@ def run_vt(case, seed):
         H.force_if(forced)
         H.detect(1)
         H.reset()
+        raised = None
         try:
             out = fn(p, seed)
+        except Exception as e:  # the 1-thread run of the same input went through: whatever happens now depends on the team
+            raised = "%s: %s" % (type(e).__name__, str(e)[:150])
+            out = None
         finally:
             H.force_if(False)
         st = H.stats()
+        if raised and not st["conflicts"] and not st["oob"]:
+            return dict(ok=False, sig="C13/thread-count-dependent/%s" % tag, transitions=trans + 1,
+                        msg="%s %s: with %d threads the call raises (%s) although the 1-thread run succeeds" % (tag, p, T, raised))
         if not forced and st["if_serial"] and T in (2, 4, case["teams"][-1]):
             # some region was serialised by an `if(...)` clause (a size or option threshold): explore it with the full team too
             passes.append((T, True))
@@ -143,13 +150,16 @@ def run_vt(case, seed):
             c0 = cs[0]
             where = "%s <-> %s" % (H.srcline(c0["pc"]), H.srcline(c0["other_pc"]))
             # bounded pre-emption exploration at the dependent accesses to make the race concrete
-            differing, tried = explore_preemptions(H, fn, p, seed, T, ref)
+            try:
+                differing, tried = explore_preemptions(H, fn, p, seed, T, ref)
+            except Exception:
+                differing, tried = -1, 0
             return dict(ok=False, sig="C13/data-race/%s" % tag, transitions=trans + tried,
                         msg="%s %s T=%d: %d conflicting access pairs between threads (data race), e.g. thread %d %s at %s; "
                             "%d of %d single-pre-emption schedules give a different output" % (
                                 tag, p, T, st["conflicts"], c0["tid"], "write" if c0["write"] else "read", where, differing, tried),
                         count={"schedules": tried})
-        bad = _same(out, ref)
+        bad = _same(out, ref) if out is not None else "the call raised: %s" % raised
         if bad:
             return dict(ok=False, sig="C13/thread-count-dependent/%s" % tag, transitions=trans,
                         msg="%s %s: output with %d threads differs from 1 thread: %s" % (tag, p, T, bad))
@@ -185,9 +195,12 @@ def explore_preemptions(H, fn, p, seed, T, ref, cap=120):
                 break
             H.reset()
             H.set_schedule([(reg, idx, to)])
-            out = fn(p, seed)
+            try:
+                out = fn(p, seed)
+            except Exception:
+                out = None
             tried += 1
-            if _same(out, ref):
+            if out is None or _same(out, ref):
                 differing += 1
         if tried >= cap:
             break
@@ -267,7 +280,13 @@ def run_binding(case, seed):
             if pr.returncode < 0:
                 return dict(ok=False, sig="C13/crash/%s-build" % variant, transitions=len(jobs),
                             msg="%s build with OMP_NUM_THREADS=%d died with signal %d while running the kernel scenarios" % (variant, n, -pr.returncode))
-            raise RuntimeError("binding worker %s/%d failed rc=%d: %s" % (variant, n, pr.returncode, se[-800:]))
+            if (variant, n) == ("omp", 1):
+                raise RuntimeError("binding worker %s/%d failed rc=%d: %s" % (variant, n, pr.returncode, se[-800:]))
+            # the single-thread OpenMP build ran the same scenarios to the end (checked first): an exception here depends on
+            # the thread count / the build
+            last = [l for l in se.strip().splitlines() if l.strip()][-1:] or [""]
+            return dict(ok=False, sig=("C13/libgomp-thread-count-dependent" if variant == "omp" else "C13/build-dependent/%s" % variant), transitions=len(jobs),
+                        msg="%s build with OMP_NUM_THREADS=%d: a scenario raises (%s) although OMP_NUM_THREADS=1 runs through" % (variant, n, last[0][:200]))
         res[(variant, n)] = dict(np.load(outp))
     import shutil
 
